@@ -20,7 +20,7 @@ RULE = (
     "cases = one collection (Emulsion | EmulsionTimeCourse | DropletTrack | DropletTrackList) "
     "built from spherical/diffuse droplets (d=1..3), perturbed 2-D (1..6 modes), 3-D (1..15), "
     "axisymmetric (1..4); sizes {0,1,2,3,7,12,13}; widths None/0/positive; zero radii; time "
-    "lists of ints, floats, negative, non-uniform, passing through 0, 1e300, 2^53; time courses "
+    "lists of ints, floats, negative, non-uniform, passing through 0, 1e300, 2^53, restarting, decreasing, unordered with ties; time courses "
     "and track lists mixing empty and non-empty members and members of different classes; and "
     "hostile collections mixing classes, mode counts or dimensions inside one member (these may "
     "raise on writing but must not read back different). Non-trivial = collection with >=2 "
@@ -84,8 +84,16 @@ def _size(rng):
 
 
 def _times(rng, n):
-    mode = int(rng.integers(0, 7))
-    if mode == 0:
+    mode = int(rng.integers(0, 10))
+    if mode == 7:  # not monotonic: two runs appended, time restarts (also gives repeated values)
+        k = max(1, n // 2)
+        step = float(rng.choice([0.1, 0.5, 1.0]))
+        t = [float(i % k) * step for i in range(n)]
+    elif mode == 8:  # decreasing
+        t = [float(x) for x in sorted(rng.uniform(-50, 50, n), reverse=True)]
+    elif mode == 9:  # arbitrary order with ties
+        t = [float(x) for x in rng.integers(-3, 4, n)]
+    elif mode == 0:
         t = list(range(n))
     elif mode == 1:
         t = [int(x) for x in np.cumsum(rng.integers(1, 5, n)) - int(rng.integers(0, 20))]
